@@ -30,7 +30,16 @@ type TOp struct {
 	Set bool   `json:"set"`
 	F   string `json:"f"`
 	V   string `json:"v,omitempty"`
+	Nil bool   `json:"nil,omitempty"` // FormattedAs(f, nil): a nil value is still a write
 }
+
+func (o TOp) value() []byte {
+	if o.Nil {
+		return nil
+	}
+	return unhex(o.V)
+}
+
 type Case struct {
 	ID      int               `json:"id"`
 	Gen     string            `json:"gen"`
@@ -68,7 +77,7 @@ func runProc(c Case) (ret *retained, obs Obs, nontrivial bool) {
 	if !c.NilTab {
 		formatted = map[string][]byte{}
 		for _, p := range c.Pre {
-			formatted[p.F] = unhex(p.V)
+			formatted[p.F] = p.Value()
 		}
 	}
 	pre := map[string][]byte{}
@@ -260,7 +269,7 @@ func runTable(c Case) (lit string, panicked string) {
 	if !c.NilTab {
 		formatted = map[string][]byte{}
 		for _, p := range c.Pre {
-			formatted[p.F] = unhex(p.V)
+			formatted[p.F] = p.Value()
 		}
 	}
 	pre := map[string][]byte{}
@@ -295,7 +304,7 @@ func runTable(c Case) (lit string, panicked string) {
 						}
 					}()
 					if r.op.Set {
-						e.FormattedAs(r.op.F, unhex(r.op.V))
+						e.FormattedAs(r.op.F, r.op.value())
 						r.done <- "None"
 					} else {
 						v, ok := e.Format(r.op.F)
@@ -312,7 +321,7 @@ func runTable(c Case) (lit string, panicked string) {
 		res := <-r.done
 		id := jgen.FmtID(o.F, extra)
 		if o.Set {
-			parts[i] = fmt.Sprintf("(%d, TSet %d %s, %s)", o.G, id, jgen.Bytes(unhex(o.V)), res)
+			parts[i] = fmt.Sprintf("(%d, TSet %d %s, %s)", o.G, id, jgen.Bytes(o.value()), res)
 		} else {
 			parts[i] = fmt.Sprintf("(%d, TGet %d, %s)", o.G, id, res)
 		}
@@ -449,7 +458,7 @@ func genGrid(em *emitter) {
 						case 0:
 							c.NilTab = true
 						case 2:
-							c.Pre = []jgen.TableEntry{{"json", hex.EncodeToString([]byte("stale\n"))}, {"text", hex.EncodeToString([]byte("T"))}}
+							c.Pre = []jgen.TableEntry{{F: "json", V: hex.EncodeToString([]byte("stale\n"))}, {F: "text", V: hex.EncodeToString([]byte("T"))}}
 						}
 						em.emit(c)
 					}
@@ -489,12 +498,54 @@ func genTable(em *emitter, r *hc.Rand, n int) {
 		for j, m := 0, r.Intn(14); j < m; j++ {
 			o := TOp{G: r.Intn(ng), Set: r.Chance(1, 2), F: names[r.Intn(len(names))]}
 			if o.Set {
-				o.V = hex.EncodeToString(g.String(4))
+				switch r.Intn(6) {
+				case 0:
+					o.Nil = true // a nil value is still a written key
+				case 1:
+					o.V = "" // empty, not nil
+				default:
+					o.V = hex.EncodeToString(g.String(4))
+				}
 			}
 			c.Ops = append(c.Ops, o)
 		}
 		em.emit(c)
 	}
+}
+
+// every short sequence over one name of: write nil / write empty / write bytes / read, on a nil, an empty and a populated
+// table, the operations alternating between two goroutines (nil and empty values are where presence and value come apart)
+func genTableEdge(em *emitter) {
+	alphabet := []TOp{{Set: true, Nil: true}, {Set: true, V: ""}, {Set: true, V: "41"}, {Set: false}}
+	var rec func(seq []TOp)
+	rec = func(seq []TOp) {
+		if len(seq) > 0 && !seq[len(seq)-1].Set {
+			for tab := 0; tab < 4; tab++ {
+				c := Case{Gen: "table-edge", Kind: "table"}
+				switch tab {
+				case 0:
+					c.NilTab = true
+				case 2:
+					c.Pre = []jgen.TableEntry{{F: "json", V: "4a"}, {F: "text", N: true}}
+				case 3:
+					c.Pre = []jgen.TableEntry{{F: "json", N: true}, {F: "text", V: ""}}
+				}
+				for i, o := range seq {
+					o.G = i % 2
+					o.F = "json"
+					c.Ops = append(c.Ops, o)
+				}
+				c.Ops = append(c.Ops, TOp{G: 0, F: "text"}, TOp{G: 1, F: "other"})
+				em.emit(c)
+			}
+		}
+		if len(seq) < 3 {
+			for _, o := range alphabet {
+				rec(append(append([]TOp{}, seq...), o))
+			}
+		}
+	}
+	rec(nil)
 }
 
 // free-running goroutines on one Event (run under -race in the stress binary): every Format result must be a value some
@@ -507,7 +558,7 @@ func stress(rounds, ng, per int, r *hc.Rand) []string {
 		if round%2 == 1 {
 			e.Formatted = map[string][]byte{"json": []byte("init")}
 		}
-		names := []string{"json", "text", "x"}
+		names := []string{"json", "text", "x", "n"} // "n" is only ever written with nil / empty values
 		type wr struct{ name, val string }
 		lastOf := make([]map[string]string, ng)
 		var mu sync.Mutex
@@ -525,6 +576,22 @@ func stress(rounds, ng, per int, r *hc.Rand) []string {
 				old := map[string]map[string]bool{} // my overwritten values per name
 				for i := 0; i < per; i++ {
 					name := names[rr.Intn(len(names))]
+					if name == "n" {
+						// presence is separate from the value: once written (even with nil) the name stays present
+						if rr.Bool() {
+							if rr.Bool() {
+								e.FormattedAs(name, nil)
+							} else {
+								e.FormattedAs(name, []byte{})
+							}
+							mine[name] = ""
+						} else if v, ok := e.Format(name); (!ok && hasKey(mine, name)) || len(v) != 0 {
+							mu.Lock()
+							bad = append(bad, fmt.Sprintf("round %d: goroutine %d: name written with a nil/empty value read back as present=%v value=%q", round, g, ok, v))
+							mu.Unlock()
+						}
+						continue
+					}
 					if rr.Bool() {
 						val := fmt.Sprintf("g%d-%d", g, i)
 						if cur, ok := mine[name]; ok {
@@ -590,6 +657,8 @@ func stress(rounds, ng, per int, r *hc.Rand) []string {
 	}
 	return bad
 }
+
+func hasKey(m map[string]string, k string) bool { _, ok := m[k]; return ok }
 
 func runCorpus(em *emitter, path string) {
 	data, err := os.ReadFile(path)
@@ -694,6 +763,7 @@ func main() {
 		case "random":
 			genProc(em, r.Fork(), *nRandom, *depth, *unenc)
 		case "table":
+			genTableEdge(em)
 			genTable(em, r.Fork(), *nTable)
 		case "":
 		default:
